@@ -449,3 +449,12 @@ func nameAt(m []string, i int) string {
 func TestC16Actions(t *testing.T) {
 	run.Property(t, "C16", "c16c", c16cStats, run.Scale(10, 100), c16cBody)
 }
+
+// TestC10Burst runs the simultaneous-submission check under property C10 as well:
+// C10 quantifies over actions "submitted sequentially or concurrently from many
+// goroutines"; the sequential part is c10, this is the concurrent part.
+var c10bStats = ev.New("C10", "c10b")
+
+func TestC10Burst(t *testing.T) {
+	run.Property(t, "C10", "c10b", c10bStats, run.Scale(10, 100), c16cBody)
+}
